@@ -69,3 +69,5 @@ vmod!(c07);
 #[cfg(not(feature = "shuttle"))]
 #[cfg(descriptive_gate)]
 vmod!(c18);
+#[cfg(descriptive_gate)]
+vmod!(c19);
